@@ -7,12 +7,15 @@ package jsonrpc
 
 //@ property C10 units: normalizeID, (*wsConn).cancelCtx, (*wsConn).handleChanMessage, (*wsConn).handleChanClose, (*wsConn).handleResponse, (*wsConn).handleFrame, (*wsConn).frameExecutor, (*wsConn).handleCall, (*wsConn).readFrame, (*wsConn).nextMessage, (*handler).handleReader, (*handler).handle, rpcError, (*handler).createError, (response).MarshalJSON, (*handler).getSpan, (*JSONRPCError).val, (*rpcFunc).processResponse, (*client).makeOutChan$1$2
 //@ property C09 units: (*handler).handleReader, (*handler).handle, (*handler).handle$1, rpcError, rpcError$1, (response).MarshalJSON, normalizeID, withLazyWriter, (*wsConn).handleCall, (*wsConn).handleOutChans$1
-//@ property C12 units: (*handler).register, (*handler).handle, processFuncOut, (*client).makeRpcFunc, NewMethodNameFormatter$1, (*RPCServer).AliasMethod, WithClientHandlerAlias$1
+//@ property C12 units: makeHandler, (*handler).register, (*handler).handle, processFuncOut, (*client).makeRpcFunc, NewMethodNameFormatter$1, (*RPCServer).AliasMethod, WithClientHandlerAlias$1
 //@ property C14 units: (*wsConn).nextWriter, (*wsConn).sendRequest, (*wsConn).setupPings, (*wsConn).setupPings$4, (*wsConn).handleWsConn, (*wsConn).tryReconnect, (*wsConn).tryReconnect$1, (*wsConn).handleOutChans, (*wsConn).handleCtxAsync, (*wsConn).nextMessage, (*wsConn).handleResponse, (*wsConn).handleCall, (*wsConn).handleCall$3, (*wsConn).cancelCtx, (*wsConn).handleChanMessage, (*wsConn).handleChanClose, (*wsConn).closeInFlight, (*wsConn).closeChans, (*wsConn).readFrame, (*wsConn).resetReadDeadline, withLazyWriter, (*lazyWriter).Write, (*lazyWriter).Write$1$1
 //@ property C05 units: (*backoff).next, (*wsConn).tryReconnect, (*wsConn).tryReconnect$1, (*wsConn).handleWsConn, websocketClient, (*rpcFunc).handleRpcCall
 //@ property C03 units: (*wsConn).handleWsConn, (*wsConn).tryReconnect, (*wsConn).tryReconnect$1, (*wsConn).closeInFlight, (*wsConn).nextMessage, (*wsConn).readFrame, (*client).setupRequestChan$1
 //@ property C02 units: (*rpcFunc).handleRpcCall, normalizeID, (*client).makeRpcFunc, (*client).setupRequestChan$1, httpClient$1, NewCustomClient$1, (*wsConn).handleWsConn, (*wsConn).handleResponse, (*wsConn).closeInFlight, (*wsConn).frameExecutor, (*wsConn).handleFrame, (*wsConn).handleCall, (*handler).handle, rpcError$1
 //@ property C04 units: (*rpcFunc).handleRpcCall, (*client).makeRpcFunc, (*client).provide, httpClient$1, (*wsConn).handleWsConn, (*wsConn).frameExecutor, (*wsConn).handleFrame, (*wsConn).handleCall, (*handler).handle, (*wsConn).closeInFlight, (*wsConn).closeChans, (*wsConn).tryReconnect, (*wsConn).tryReconnect$1
+//@ property C06 units: (*client).setupRequestChan$1, (*wsConn).handleCtxAsync, (*wsConn).handleResponse, (*wsConn).cancelCtx, (*wsConn).handleCall, (*wsConn).handleCall$2, (*wsConn).handleCall$3, (*handler).handle, (*wsConn).closeInFlight, (*RPCServer).ServeHTTP, (*handler).handleReader, httpClient$1, (*wsConn).handleFrame
+//@ property C15 units: (*wsConn).handleWsConn, (*wsConn).handleCall, (*wsConn).closeInFlight, (*wsConn).nextWriter, (*wsConn).readFrame, (*wsConn).frameExecutor, (*client).sendRequest, (*client).setupRequestChan$1, (*wsConn).handleOutChans, (*wsConn).handleChanOut, withLazyWriter, (*lazyWriter).Write, (*lazyWriter).Write$1$1, (*RPCServer).handleWS
+//@ property C16 units: WithReverseClient$1$1, ExtractReverseClient, (*RPCServer).handleWS, (*RPCServer).ServeHTTP, (*client).setupRequestChan$1, (*wsConn).handleChanOut, websocketClient, WithClientHandlerAlias$1, (*wsConn).closeInFlight, (*wsConn).handleWsConn
 //@ property C13 units: doCall, (*handler).handle, rpcError$1
 
 //@ -- ------------------------------------------------------------------ shared vocabulary
@@ -115,6 +118,12 @@ package jsonrpc
 //@   loop 1 invariant reader-channel: c.incoming != nil && chancap(c.incoming) == 0 [C03,C10]
 //@   ensures exits-only-for-a-cause: branch == 1 || branch == 2 || ((branch == 3 || branch == 4) && reconnectFailed) || (branch == 3 && err == nil) || (branch == 5 && c.connFactory == nil) [C03,C05]
 //@   at store wsConn.incoming: assert reader-channel-unbuffered: chancap($val) == 0 && $val != nil && !closed($val) [C03,C10]
+//@   at call context.WithCancel: assert connection-context-derives-from-caller: $0 == ctx [C15]
+//@   at ret context.WithCancel: let cctx = $result0
+//@   at go frameExecutor: assert executor-runs-under-connection-context: $1 == cctx [C15]
+//@   at go readFrame: assert reader-runs-under-connection-context: $1 == cctx [C15]
+//@   at call tryReconnect: assert reconnect-bound-to-connection-context: $1 == cctx [C15,C18]
+//@   at makechan: assert no-unbuffered-error-channel: true [C15]
 //@   ensures exit-fails-calls-and-closes-channels: calls(closeInFlight) >= 1 && calls(closeChans) >= 1 && calls(cancel) >= 1 [C03,C08,C15]
 
 //@ func (*wsConn).tryReconnect
@@ -168,15 +177,33 @@ package jsonrpc
 //@   loop 1 invariant sinks-ok-while-held: sinksOK(c) [C10,C14,C08]
 
 //@ func (*wsConn).handleCtxAsync
+//@   at call reflect.ValueOf: assert cancel-names-the-subscribing-call: $0 == id [C06]
+//@   at call sendRequest: assert cancel-message-shape: $1.Method == "xrpc.cancel" && $1.ID == nil && $1.Params == rp && calls(Done) == 1 [C06]
+//@   ensures at-most-one-cancel: calls(sendRequest) <= 1 [C06]
 
 //@ func (*wsConn).handleCall$3
+//@   at dyncall cancel: assert released-only-when-not-kept: !keepctx [C06]
+//@   at mapdel wsConn.handling: assert forgets-only-own-entry: $key == frame.ID && !keepctx [C06]
+//@   ensures released-when-not-kept: !keepctx ==> calls(cancel) == 1 [C06,C15]
+
+//@ func (*wsConn).handleCall$2
+//@   at dyncall cancel: assert released-only-when-not-kept: !keepCtx [C06]
+//@   ensures released-when-not-kept: !keepCtx ==> calls(cancel) == 1 [C06,C15]
 
 //@ func (*lazyWriter).Write
 
 //@ func (*lazyWriter).Write$1$1
 
 //@ func (*wsConn).cancelCtx
+//@   modifies nothing
 //@   nopanic [C10]
+//@   ghost nid : U = nil
+//@   at ret normalizeID: set nid = $result0
+//@   at call encoding/json.Unmarshal: assert decodes-first-param: calls(Unmarshal) == 1 ==> $0 == params[0].data [C06]
+//@   at call normalizeID: assert normalises-the-decoded-id: $0 == id [C06,C10]
+//@   at maplookup wsConn.handling: assert looks-up-the-named-call: $key == nid [C06]
+//@   at maplookup wsConn.handling: let centry = $val
+//@   at dyncall cf: assert cancels-only-the-named-call: $callee == centry && calls(cf) == 0 [C06]
 
 //@ func (*wsConn).handleChanMessage
 //@   nopanic [C10]
@@ -205,6 +232,12 @@ package jsonrpc
 //@   requires idok(frame.ID)
 //@   nopanic [C10]
 //@   at go handle: assert writer-iff-id: (frame.ID != nil) == isfn($3, "(*wsConn).nextWriter") && (frame.ID == nil) == isfn($3, "(*wsConn).handleCall$1") [C09,C04]
+//@   at call context.WithCancel: assert handler-context-derives-from-connection: $0 == ctx [C06,C15]
+//@   at ret context.WithCancel: let hctx = $result0
+//@   at ret context.WithCancel: let hcancel = $result1
+//@   at mapset wsConn.handling: assert registers-own-cancel-under-own-id: $key == frame.ID && $val == hcancel [C06]
+//@   at go handle: assert handler-runs-with-derived-context: $1 == hctx && calls(WithCancel) == 1 [C06,C15]
+//@   at go handle: assert done-matches-id: (frame.ID != nil) == isfn($5, "(*wsConn).handleCall$3") && (frame.ID == nil) == isfn($5, "(*wsConn).handleCall$2") [C06]
 //@   ensures one-handler-goroutine-per-call: c.handler != nil ==> spawnedCount(handle) == 1 [C04]
 //@   at go handle: assert context-registered-before-start: frame.ID != nil ==> calls(Lock) == 1 && calls(Unlock) == 1 [C06]
 //@   at go handle: assert request-copied-from-frame: $2.ID == frame.ID && $2.Method == frame.Method && $2.Params == frame.Params && $2.Jsonrpc == frame.Jsonrpc [C09,C01,C02]
@@ -217,6 +250,7 @@ package jsonrpc
 //@ func (*wsConn).handleFrame
 //@   requires idok(frame.ID)
 //@   nopanic [C10]
+//@   at call handleCall: assert call-inherits-connection-context: $1 == ctx [C15,C06]
 //@   ensures exactly-one-dispatch: calls(handleResponse) + calls(cancelCtx) + calls(handleChanMessage) + calls(handleChanClose) + calls(handleCall) == 1 [C04,C02]
 //@   ensures dispatch-by-method: (frame.Method == "" ==> calls(handleResponse) == 1) && (frame.Method == "xrpc.cancel" ==> calls(cancelCtx) == 1) && (frame.Method == "xrpc.ch.val" ==> calls(handleChanMessage) == 1) && (frame.Method == "xrpc.ch.close" ==> calls(handleChanClose) == 1) [C04,C02,C06,C07]
 
@@ -228,10 +262,17 @@ package jsonrpc
 //@   at recv c.frameExecQueue: let buf0 = $val
 //@   at call encoding/json.Unmarshal: assert decodes-the-dequeued-frame: $0 == buf0 [C02,C04]
 //@   at call handleFrame: assert each-frame-dispatched-at-most-once: handled == 0 && idok($2.ID) [C02,C04,C10]
+//@   at call handleFrame: assert handlers-inherit-connection-context: $1 == ctx [C15,C06]
+//@   at recv ctx.Done(): assert stops-with-connection-context: true [C15]
 //@   at call handleFrame: inc handled
 
 //@ func (*wsConn).readFrame
 //@   requires reader-owns-open-channel: c.incoming != nil && !closed(c.incoming) [C10,C03,C08]
+//@   ghost reportedErr : Bool = false
+//@   at send c.readError: set reportedErr = true
+//@   at send c.frameExecQueue: assert enqueues-the-frame-just-read: $val == buf && !reportedErr [C02,C15]
+//@   ensures reader-restarted-unless-read-failed: reportedErr || spawnedCount(nextMessage) == 1 [C15,C03]
+//@   ensures one-outcome: reportedErr != (calls(nextMessage) >= 0 && spawnedCount(nextMessage) == 1) [C15]
 //@   nopanic [C10]
 
 //@ func (*wsConn).nextMessage
@@ -248,7 +289,7 @@ package jsonrpc
 
 //@ -- ------------------------------------------------------------------ handler.go / server.go
 //@ func (*handler).handleReader
-//@   requires rpcError != nil && handlersOK(s)
+//@   requires handler-tables-wellformed: rpcError != nil && handlersOK(s) [C10,C09,C01,C12]
 //@   ghost sizeRejected : Bool = false
 //@   at ret ReadFrom: let nread = $result0
 //@   at ret ReadFrom: let readErr = $result1
@@ -270,6 +311,7 @@ package jsonrpc
 //@   at call xerrors.Errorf: set lastMsg = $0
 //@   at call dyn:rpcError: assert codes-match-causes: (lastMsg == "Invalid request" ==> $2 == -32600) && (lastMsg == "Parse error" ==> $2 == -32700) && ($2 == -32600 ==> reqSize == 0 || (defined(reqs) && len(reqs) == 0)) [C09]
 //@   at call handle: assert id-normalised-before-dispatch: idok($2.ID) [C09,C02]
+//@   at call handle: assert handler-gets-the-request-context: $1 == ctx [C06]
 //@   at call handle: assert batch-elements-buffered: (ost == 0) == isfn($3, "(*handler).handleReader$1") [C09]
 //@   loop 1 invariant array-open: (ost == 2 || ost == 3) && wroteElem == (ost == 3) [C09]
 //@   ensures wellformed-output: ost == 0 || ost == 1 || ost == 5 [C09]
@@ -282,6 +324,10 @@ package jsonrpc
 //@   ghost callErr : U = nil
 //@   at ret doCall: set callErr = $result1
 //@   ensures done-always-runs: calls(done) >= 1 [C13,C06,C15]
+//@   ghost lastKeep : Bool = false
+//@   at dyncall done: set lastKeep = $0
+//@   ensures streams-keep-their-context: defined(outCh) ==> lastKeep == outCh [C06,C15]
+//@   ensures unresolved-calls-release-context: !resolvable(s, req.Method) ==> !lastKeep [C06]
 //@   ghost rpcCode : Int = 0
 //@   ghost chanDeferred : Bool = false
 //@   at call dyn:rpcError: set rpcCode = $2
@@ -432,13 +478,28 @@ package jsonrpc
 //@   ensures neg: attempt < 0 ==> result == b.minDelay [C05]
 
 //@ func websocketClient
+//@   may_panic
+//@   at store handler.aliasedMethods: assert reverse-handler-uses-configured-aliases: $val == config.aliasedHandlerMethods [C16,C12]
+//@   at call (*handler).register: assert reverse-handlers-registered-under-their-namespace: $1 == reverseHandler.ns && $2 == reverseHandler.hnd [C16,C12]
+//@   at store wsConn.handler: assert connection-dispatches-to-reverse-handler: len(config.reverseHandlers) > 0 ==> $val != nil [C16]
+//@   at store wsConn.exiting: assert closer-waits-on-this-connections-exit: $val == exiting [C16,C18]
 //@   at store wsConn.connFactory: assert no-reconnect-drops-the-dial-factory: config.noReconnect ==> $val == nil [C05]
 //@   at store wsConn.reconnectBackoff: assert uses-configured-backoff: $val == config.reconnectBackoff [C05]
 
 //@ func (*client).setupRequestChan$1
-//@   ghost got : U = nil
+//@   ghost pendingCancel : Bool = false
+//@   ghost cancelsSent : Int = 0
 //@   at send requests: assert enqueues-the-callers-request-first: calls(Marshal) == 0 ==> $val == cr [C02,C04]
-//@   ensures enqueued-once: true [C04]
+//@   at recv ctxDone: set pendingCancel = true
+//@   at call reflect.ValueOf: assert cancel-names-the-waiting-call: $0 == cr.req.ID [C06]
+//@   at send requests: assert cancel-message-shape: calls(Marshal) == 1 ==> $val.req.Method == "xrpc.cancel" && $val.req.ID == nil && $val.req.Params == rp && $val.ready != nil [C06]
+//@   at send requests: set pendingCancel = false
+//@   at recv c.exiting: set pendingCancel = false
+//@   at recv c.exiting: assert exit-alternative-present: true [C03,C15,C16]
+//@   at makechan: assert cancel-mailbox-buffered: chancap($chan) == 1 [C15]
+//@   loop 1 invariant cancel-never-silently-dropped: !pendingCancel && calls(Marshal) <= 1 [C06]
+//@   at recv cr.ready: let got = $val
+//@   ensures returns-what-arrived-in-own-mailbox: result1 == nil ==> result0 == got [C02]
 
 //@ func (*rpcFunc).handleRpcCall
 //@   may_panic
@@ -467,6 +528,8 @@ package jsonrpc
 //@   loop 2 invariant one-proxy-per-field: calls(makeRpcFunc) == calls(Set) [C04,C01]
 
 //@ func httpClient$1
+//@   at call (*net/http.Request).WithContext: assert request-carries-the-callers-context: $1 == ctx [C06]
+//@   ensures caller-context-attached: calls(Do) == 1 && ctx != nil ==> calls(WithContext) == 1 [C06]
 //@   at call (net/http.Header).Set: assert request-not-marked-idempotent: $1 != "Idempotency-Key" && $1 != "X-Idempotency-Key" [C04]
 //@   at call net/http.NewRequest: assert sent-as-post: $0 == "POST" [C04]
 //@   ensures one-http-exchange: calls(Do) <= 1 [C04]
@@ -475,3 +538,47 @@ package jsonrpc
 //@ func NewCustomClient$1
 //@   ensures answer-carries-request-id: result1 == nil && cr.req.ID != nil ==> result0.ID == cr.req.ID [C02]
 //@   ensures one-exchange: calls(doRequest) <= 1 [C04]
+
+//@ func (*client).sendRequest
+//@   at makechan: assert response-mailbox-buffered: chancap($chan) == 1 [C15,C02,C03]
+//@   at call dyn:c.doRequest: assert fresh-mailbox-per-call: $1.req == req && $1.retCh == chCtor && $0 == ctx [C02,C15]
+
+//@ func (*wsConn).handleChanOut
+//@   at recv c.exiting: assert exit-alternative-present: true [C15,C16]
+//@   at send c.registerCh: assert registers-under-fresh-channel-id: $val.reqID == req && $val.ch == ch && $val.chID == id [C07]
+//@   ensures fresh-channel-id: calls(AddUint64) == 1 [C07]
+
+//@ func (*RPCServer).handleWS
+//@   ghost built : Bool = false
+//@   at ret dyn:s.reverseClientBuilder: set built = true
+//@   ghost bctx : U = nil
+//@   at ret dyn:s.reverseClientBuilder: set bctx = $result0
+//@   at call dyn:s.reverseClientBuilder: assert builder-gets-this-connection: $1 == wc && $0 == ctx [C16]
+//@   at call runtime/pprof.Do: assert connection-loop-gets-the-augmented-context: $0 == ite(built, bctx, ctx) [C16,C15]
+//@   at store wsConn.exiting: assert fresh-exit-signal-per-connection: $val != nil && chancap($val) == 0 [C16,C15]
+//@   ensures socket-released-after-loop: calls(Upgrade) == 1 [C15]
+
+//@ func (*RPCServer).ServeHTTP
+//@   at ret (*net/http.Request).Context: let rctx = $result0
+//@   at call handleReader: assert http-handler-context-derives-from-request: ctxParent($1) == rctx [C06]
+//@   at call handleWS: assert ws-context-derives-from-request: ctxParent($1) == rctx [C06,C15]
+
+//@ func WithReverseClient$1$1
+//@   may_panic
+//@   at store client.exiting: assert reverse-client-is-per-connection: isfresh($obj) && $val == conn.exiting [C16]
+//@   at store client.namespace: assert reverse-client-is-per-connection: isfresh($obj) [C16]
+//@   at call (*client).setupRequestChan: assert queue-built-for-this-client: isfresh($0) [C16]
+//@   at ret (*client).setupRequestChan: let rq = $result0
+//@   at store wsConn.requests: assert connection-serves-this-clients-queue: $obj == conn && $val == rq [C16]
+//@   at call (*client).provide: assert proxy-filled-by-this-client: isfresh($0) && calls(setupRequestChan) == 1 [C16]
+//@   at call context.WithValue: assert stored-under-type-key-in-callers-context: $0 == ctx && $2 == box(calls) [C16]
+//@   ensures error-or-context: result1 == nil ==> result0 != nil && ctxParent(result0) == ctx [C16]
+
+//@ func ExtractReverseClient
+//@   modifies nothing
+//@   at call (context.Context).Value: assert looks-up-in-the-handlers-context: $0 == ctx [C16]
+
+//@ func makeHandler
+//@   modifies nothing
+//@   ensures fresh-empty-tables: result != nil && result.methods != nil && result.aliasedMethods != nil && (forall k: U :: !present(result.methods, k)) && (forall k: U :: !present(result.aliasedMethods, k)) [C12,C16,C01]
+//@   ensures carries-configuration: result.methodNameFormatter == sc.methodNameFormatter && result.maxRequestSize == sc.maxRequestSize && result.paramDecoders == sc.paramDecoders && result.errors == sc.errors [C12,C10,C11]
